@@ -961,6 +961,22 @@ def canon_folds(t):
                 return [(conds, strip(stp[3])[1][0])]
             return None
         empty_list = head(init) == "list" and not init[1]
+        if empty_list and head(step) == "bin" and step[1] == "+" and strip(step[2]) == acc and head(strip(step[3])) == "comp" and strip(step[3])[1] == "list" \
+                and not any(y == acc for y in walk(step[3])) and not any(y == acc for y in walk(it)):
+            # for x in A: for y in B(x): out.append(f(x, y))   ==   [f(x, y) for x in A for y in B(x)]
+            c = strip(step[3])
+            ce = ("citer", cid, 0, it)
+            m = {elem: ce}
+            gens, elt = [(ce, ())], subst(c[2], m)
+            later = [(subst(g_, m), tuple(subst(cc, m) for cc in conds)) for g_, conds in c[3]]
+            for k, (g_, conds) in enumerate(later):
+                # the inner generators become generators k+1.. of the one comprehension
+                g2 = ("citer", cid, k + 1, g_[3])
+                ren = {g_: g2}
+                elt = subst(elt, ren)
+                later = [(subst(gg, ren) if j > k else gg, tuple(subst(cc, ren) for cc in cs_)) for j, (gg, cs_) in enumerate(later)]
+                gens.append((g2, later[k][1]))
+            return ("comp", "list", elt, tuple(gens), cid)
         empty_set = (head(init) == "set" and not init[1]) or (head(init) == "call" and strip(init[1]) == ("glob", "builtins.set") and not init[2])
         carried_list = head(init) == "acc" and not any(y == init for y in walk(it))
         if empty_list or empty_set or carried_list:
